@@ -181,14 +181,15 @@ func (st *c30State) note(node int, op, kind, result string) {
 			st.basis[key] = "record-absent"
 		}
 	case "RemoveGrain":
-		if prev := strings.TrimPrefix(result, "ok:"); prev != result && prev != "-" {
+		if parts := strings.SplitN(result, ":", 3); len(parts) == 3 && parts[0] == "ok" && parts[1] != "-" {
+			prev, via := parts[1], parts[2]
 			st.mu.Lock()
 			if prev != self {
 				// nodes never crash here: a node that deletes the record of another node has
-				// misjudged it as stale
-				st.anomaly("record-of-another-node-removed")
+				// misjudged it as stale (or deletes on behalf of an activation that is long over)
+				st.anomaly("record-of-another-node-removed-by-" + via)
 			} else if st.live[node] > 0 {
-				st.anomaly("record-removed-by-the-holder-node-while-it-holds-a-live-instance")
+				st.anomaly("own-record-removed-while-holding-a-live-instance-by-" + via)
 			}
 			st.mu.Unlock()
 		}
